@@ -71,33 +71,87 @@ def r2(c):
     fn = repo.func(IMPLICIT, "config")
     c.count("functions")
     gm = GuardMap(fn)
-    stores = [n for n in walk_no_nested(fn) if isinstance(n, ast.Assign) and isinstance(n.targets[0], ast.Subscript) and norm(n.targets[0].value) == "implicit_config_tree"]
-    ins = [s for s in stores if norm(s.targets[0].slice) == "row"]
-    rec = [s for s in stores if norm(s.targets[0].slice) != "row"]
+    ro = _config_roles(fn)
+    pv, TREE, R, U, RES = ro["pv"], ro["tree"], ro["row"], ro["rule"], ro["result"]
+    ins, rec = ro["ins"], ro["rec"]
     c.check("C17.R2", len(ins) == 1 and len(rec) == 1, repo.loc(m, fn), "implicit.config/stores", f"{len(ins)} default-row stores and {len(rec)} recursion stores (expected 1 and 1)", key_text="stores")
     if len(ins) != 1 or len(rec) != 1:
         return
+    M = _matched_var(fn, pv, gm, TREE, U)
 
     def ren(s):
         s = s.replace('"', "'")
-        return {"rule['type'] == 'ignore'": "is_ignore", "'ignore' == rule['type']": "is_ignore", "any(matched_lines)": "matched", "matched_lines": "matched",
-                "row in config_tree": "row_present"}.get(s, s)
+        return {f"{U}['type'] == 'ignore'": "is_ignore", f"'ignore' == {U}['type']": "is_ignore", f"any({M})": "matched", f"{M}": "matched", f"len({M}) > 0": "matched",
+                f"{R} in {TREE}": "row_present", f"{R} in {TREE}.keys()": "row_present"}.get(s, s)
     env = G.GuardEnv(rename=ren)
-    f = gm.formula(ins[0], env)
+    f = gm.formula(ins[0], env, alias=True)
     spec = G.And(G.Not(G.Atom("is_ignore")), G.Not(G.Atom("matched")), G.Not(G.Atom("row_present")))
     c.check("C17.R2", G.equivalent(f, spec), repo.loc(m, ins[0]), "implicit.config/insert-guard", f"default row inserted under {G.show(f)}; expected ¬ignore ∧ ¬any(matching line) ∧ row absent",
             key_text="insert-guard")
-    fr = gm.formula(rec[0], env)
+    fr = gm.formula(rec[0], env, alias=True)
     c.check("C17.R2", fr == G.T, repo.loc(m, rec[0]), "implicit.config/recursion-guard", f"recursion under a matching line happens only under {G.show(fr)}: nested defaults of a matching explicit block are not completed "
             "(the default row would be missing although no line of its kind is present)", key_text="rec-guard")
     loops = gm.in_loop(rec[0])
-    ok = bool(loops) and norm(loops[-1].iter) == "matched_lines" and norm(rec[0].targets[0].slice) == loops[-1].target.id
-    v = rec[0].value
-    ok = ok and isinstance(v, ast.Call) and call_name(v) == "config" and "children" in norm(v.args[1]) and norm(v.args[0]) == f"config_tree[{loops[-1].target.id}]" if loops else False
+    ok = bool(loops) and M is not None and norm(loops[-1].iter) == M and isinstance(loops[-1].target, ast.Name) and norm(rec[0].targets[0].slice) == loops[-1].target.id
+    v = pv.resolve_alias(rec[0].value)
+    if ok:
+        ok = isinstance(v, ast.Call) and call_name(v) == fn.name and len(v.args) >= 2 and _is_children(pv, v.args[1], U) and norm(pv.resolve_alias(v.args[0])) == f"{TREE}[{loops[-1].target.id}]"
     c.check("C17.R2", bool(ok), repo.loc(m, rec[0]), "implicit.config/recursion-shape", "recursion is not config(config_tree[line], rule['children']) for every matching line", key_text="rec-shape")
-    ml = [n for n in walk_no_nested(fn) if isinstance(n, ast.Assign) and norm(n.targets[0]) == "matched_lines"]
-    ok = bool(ml) and isinstance(ml[0].value, ast.ListComp) and "regexp" in norm(ml[0].value) and ".match(line)" in norm(ml[0].value) and "config_tree" in norm(ml[0].value.generators[0].iter)
-    c.check("C17.R2", ok, repo.loc(m, fn), "implicit.config/matched-lines", "matching lines are not computed with the rule's regexp over the tree's own keys", key_text="matched")
+    c.check("C17.R2", M is not None, repo.loc(m, fn), "implicit.config/matched-lines", "matching lines are not computed with the rule's regexp over the tree's own keys", key_text="matched")
+
+
+def _is_children(pv, e, U):
+    return norm(pv.resolve_alias(e)).replace('"', "'") == f"{U}['children']"
+
+
+def _config_roles(fn):
+    """roles in implicit.config(tree, rules): the tree and rules parameters, the loop `for row, rule in rules.items()`, the returned result dict and the stores into it"""
+    ps = [a.arg for a in fn.args.args]
+    if len(ps) < 2:
+        raise AnchorError("implicit.config: (tree, rules) parameters not found")
+    TREE, RULES = ps[0], ps[1]
+    pv = Provenance(fn)
+    loops = [n for n in walk_no_nested(fn) if isinstance(n, ast.For) and norm(n.iter) == f"{RULES}.items()" and isinstance(n.target, ast.Tuple) and len(n.target.elts) == 2
+             and all(isinstance(e, ast.Name) for e in n.target.elts)]
+    rets = [n for n in walk_no_nested(fn) if isinstance(n, ast.Return) and isinstance(n.value, ast.Name)]
+    if len(loops) != 1 or len(rets) != 1:
+        raise AnchorError("implicit.config: loop over the rules / returned result not found")
+    R, U = loops[0].target.elts[0].id, loops[0].target.elts[1].id
+    RES = rets[0].value.id
+    stores = [n for n in walk_no_nested(fn) if isinstance(n, ast.Assign) and isinstance(n.targets[0], ast.Subscript) and norm(n.targets[0].value) == RES]
+    ins = [s for s in stores if norm(pv.resolve_alias(s.targets[0].slice)) == R]
+    rec = [s for s in stores if s not in ins]
+    return {"pv": pv, "tree": TREE, "row": R, "rule": U, "result": RES, "ins": ins, "rec": rec}
+
+
+def _matched_var(fn, pv, gm, TREE, U):
+    """the local holding exactly the keys of the tree that the rule's regexp matches (comprehension or append loop)"""
+    def is_keys(e):
+        return norm(e) in (TREE, f"{TREE}.keys()", f"list({TREE})", f"list({TREE}.keys())")
+
+    def is_match(test, line):
+        t = pv.resolve_alias(test)
+        if not (isinstance(t, ast.Call) and isinstance(t.func, ast.Attribute) and t.func.attr == "match" and len(t.args) == 1 and norm(t.args[0]) == line):
+            return False
+        return norm(pv.resolve_alias(t.func.value)).replace('"', "'") == f"{U}['regexp']"
+    for n in walk_no_nested(fn):
+        if isinstance(n, ast.Assign) and isinstance(n.targets[0], ast.Name):
+            v = n.value
+            if isinstance(v, (ast.ListComp, ast.SetComp)) and len(v.generators) == 1 and isinstance(v.generators[0].target, ast.Name):
+                g = v.generators[0]
+                if is_keys(g.iter) and norm(v.elt) == g.target.id and len(g.ifs) == 1 and is_match(g.ifs[0], g.target.id):
+                    return n.targets[0].id
+            if isinstance(v, ast.List) and not v.elts:
+                name = n.targets[0].id
+                apps = [x for x in calls_in(fn) if isinstance(x.func, ast.Attribute) and x.func.attr == "append" and norm(x.func.value) == name]
+                others = [x for x in walk_no_nested(fn) if isinstance(x, ast.Name) and x.id == name and isinstance(x.ctx, ast.Store) and x is not n.targets[0]]
+                if len(apps) == 1 and not others:
+                    lp = gm.in_loop(apps[0])
+                    if lp and isinstance(lp[-1].target, ast.Name) and is_keys(lp[-1].iter) and norm(apps[0].args[0]) == lp[-1].target.id:
+                        conds = [(t, pol) for t, pol in gm.of(apps[0]) if any(isinstance(k, ast.Name) and k.id == lp[-1].target.id for k in ast.walk(t))]
+                        if len(conds) == 1 and conds[0][1] and is_match(conds[0][0], lp[-1].target.id):
+                            return name
+    return None
 
 
 def r3(c):
@@ -149,12 +203,12 @@ def r4(c):
                     blocks.append((node.lineno + r.line.no - 1, r.row, [ch.row for ch in r.children]))
     c.analysed["default_blocks_with_children"] = [f"{b[1]} -> {b[2]}" for b in blocks]
     cf = repo.func(IMPLICIT, "config")
-    ins = [n for n in walk_no_nested(cf) if isinstance(n, ast.Assign) and isinstance(n.targets[0], ast.Subscript) and norm(n.targets[0].value) == "implicit_config_tree"
-           and norm(n.targets[0].slice) == "row"]
+    ro = _config_roles(cf)
+    ins = ro["ins"]
     if len(ins) != 1:
         raise AnchorError("implicit.config: insertion of the default row not found")
-    v = ins[0].value
-    rec = isinstance(v, ast.Call) and call_name(v) == "config" and len(v.args) >= 2 and "children" in norm(v.args[1])
+    v = ro["pv"].resolve_alias(ins[0].value)
+    rec = isinstance(v, ast.Call) and call_name(v) == cf.name and len(v.args) >= 2 and _is_children(ro["pv"], v.args[1], ro["rule"])
     if not blocks:
         c.holds("C17.R4", repo.loc(m, cf), "implicit.config/insert-value", "no default block with children in the embedded texts (vacuous)", trivial=True)
         return
